@@ -182,6 +182,21 @@ def run(ctx):
                   "mkdir %s/sub" % d, G.plant("%s/sub/inner" % d, "I", mode=0o644, mtime=G.T0 - 50, atime=G.T0 - 40)]
             L += [G.FIRE, "snap", G.op(0, opk[0], ("ok", 7, 9), *opk[1:]), "snap"]
             mcases.append(({"name": "ok", "w": w, "op": opk[0], "maintenance": True}, L))
+    for w in (("plain", 1), ("sharded", 4, 4)):
+        d = G.key_path(w, "w", ("ok", 7, 9)).rsplit("/", 1)[0]
+        direct = [("pput", "V", 1), ("pset", "V", 1)] if w[0] == "plain" else [("sput", "V", 1), ("sset", "V", 1)]
+        for bad in (".hidden", "", "a/b", "/abs"):
+            for opk in [("put", "V", 1), ("set", "V", 1), ("put_temp", "V", 1), ("ensure", "val:P:1"), ("touch",), ("get",)] + direct:
+                L = G.header(w, (), "none")
+                L += [G.plant("%s/f%d" % (d, i), "x", mtime=G.T0 + i, atime=G.T0 + i + (5 if i % 2 else -100)) for i in range(6)]
+                L += [G.plant("%s/.kismet_temp/stale" % d, "z", mode=0o600, mtime=G.T0 - 10**13, atime=G.T0 - 10**13)]
+                L += [G.FIRE, "snap"]
+                if opk[0] in ("pput", "pset"):
+                    L.append("op 0 %s %s %s %d" % (opk[0], esc(bad), opk[1], opk[2]))
+                else:
+                    L.append(G.op(0, opk[0], (esc(bad), 7, 9), *opk[1:]))
+                L.append("snap")
+                mcases.append(({"name": bad, "w": w, "op": opk[0], "maintenance": True, "rejected": True}, L))
     mres = S.run_many(mcases)
     for desc, lines, impl, model, diffs in mres:
         if diffs:
@@ -193,6 +208,14 @@ def run(ctx):
         nontriv += 1
         before = {l.split(" ")[0]: l.split(" ") for l in impl.snaps[0]}
         after = {l.split(" ")[0]: l.split(" ") for l in impl.snaps[1]}
+        if desc.get("rejected"):
+            # a rejected name modifies NOTHING, even when maintenance is due and the directory is over capacity
+            changed = [p_ for p_ in set(before) | set(after) if p_.startswith("w/") and (before.get(p_, [None] * 8)[1:6] != after.get(p_, [None] * 8)[1:6] or (before.get(p_) or [0] * 8)[7:8] != (after.get(p_) or [0] * 8)[7:8])]
+            if changed:
+                violations.append({"what": "%s with the rejected name %r modified the cache directory (maintenance was due): %s" % (desc["op"], desc["name"], sorted(changed)[:6]),
+                                   "classification": {"kind": "rejected-but-modified", "op": desc["op"]},
+                                   "replay": {"kind": "input", "name": desc["name"], "op": desc["op"], "writer": str(desc["w"]), "scenario": lines}})
+            continue
         for pth, f in before.items():
             last = pth.rsplit("/", 1)[-1]
             reserved = (last.startswith(".") and not last.startswith(".kismet")) or "/sub/" in pth
